@@ -231,6 +231,17 @@ class _Table:
         shutil.rmtree(self.dir, ignore_errors=True)
 
 
+def _lost_row_kinds(row: Dict[str, Any], exprs: List[Dict[str, Any]], fl_cols: List[str]) -> set:
+    kinds = set()
+    for e in exprs:
+        v = row[e["col"]]
+        if e["op"] in ("!=", "not_in") and _is_nan(v):
+            kinds.add(("nan", e["op"]))
+        if e["op"] == "in" and e["col"] in fl_cols and isinstance(v, float) and v == 0.0:
+            kinds.add(("zero", "in"))
+    return kinds
+
+
 def _classify(v: Any) -> str:
     return "NULL" if v is None else ("NaN" if _is_nan(v) else "plain")
 
@@ -246,6 +257,7 @@ def _judge_filter(
     nan_rows = [r for r in all_rows if any(_is_nan(r[c]) for c in fcols)]
     exp_nonan = [r for r in expected if not any(_is_nan(r[c]) for c in fcols)]
     ops = "+".join(sorted({e["op"] for e in exprs})) or "nofilter"
+    fl_cols = [c for c in ("a", "b") if t.types[c] in FLOAT_TYPES]
     bad: List[Dict[str, Any]] = []
     nan_only_shapes = set()
     n_ok = 0
@@ -268,11 +280,29 @@ def _judge_filter(
             n_ok += 1
             continue
         missing, extra = exp - got, got - exp
-        # is the deviation confined to rows whose filtered value is NaN?
+        vtag = "verify" if verify else "noverify"
+        # is the deviation confined to rows whose filtered value is NaN?  (for the NaN-semantics rule below)
         lo = _bag(_project(r, cols) for r in exp_nonan)
         nanbag = _bag(_project(r, cols) for r in nan_rows)
         nan_only = not (lo - got) and not ((got - lo) - nanbag)
-        # classify the rows involved, via the full rows that project onto the differing keys
+        if nan_only:
+            nan_only_shapes.add((sum(missing.values()), sum(extra.values())))
+        detail = dict(where, what=f"{sum(missing.values())} row(s) missing {sorted(missing)[:3]}, {sum(extra.values())} extra {sorted(extra)[:3]}",
+                      got=sorted(got.elements())[:40], expected=sorted(exp.elements())[:40], cls="nan" if nan_only else "rows")
+        # Rows that are only LOST: name the class of every lost row.  Two classes are what row-group statistics
+        # cannot see (NaN under != / not_in) or misrepresent (the zero of an all-zero float row group under in).
+        kinds = set()
+        if missing and not extra:
+            for k in missing:
+                ks = set()
+                for r in expected:
+                    if row_key(_project(r, cols)) == k:
+                        ks |= _lost_row_kinds(r, exprs, fl_cols)
+                kinds |= ks or {("other", "")}
+        if kinds and ("other", "") not in kinds:
+            for kind_, op_ in sorted(kinds):
+                bad.append(dict(detail, sig=f"{kind_}-row-lost:{api}:{vtag}:{op_}"))
+            continue
         by_key: Dict[str, List[Dict[str, Any]]] = {}
         for r in all_rows:
             by_key.setdefault(row_key(_project(r, cols)), []).append(r)
@@ -282,21 +312,12 @@ def _judge_filter(
                 for c in fcols:
                     classes.add(_classify(r.get(c, "?")))
         direction = "missing" if missing and not extra else ("extra" if extra and not missing else "both")
-        vtag = "verify" if verify else "noverify"
-        if nan_only:
-            nan_ops = "+".join(sorted({e["op"] for e in exprs if e["col"] == "b"}))
-            sig = f"nan-row-{'lost' if direction == 'missing' else direction}:{api}:{vtag}:{nan_ops}"
-            nan_only_shapes.add((sum(missing.values()), sum(extra.values())))
-        else:
-            sig = f"wrong-rows:{api}:{vtag}:{ops}:{direction}:{'/'.join(sorted(classes)) or '?'}"
-        bad.append(dict(where, cls="nan" if nan_only else "rows", sig=sig,
-                        what=f"{sum(missing.values())} row(s) missing {sorted(missing)[:3]}, {sum(extra.values())} extra {sorted(extra)[:3]}",
-                        got=sorted(got.elements())[:40], expected=sorted(exp.elements())[:40]))
+        bad.append(dict(detail, sig=f"wrong-rows:{api}:{vtag}:{ops}:{direction}:{'/'.join(sorted(classes)) or '?'}"))
     if not bad:
         return
     # NaN rows: SQL gives NaN no single meaning; the reference is IEEE.  If EVERY read program deviates
     # from it in the same way, and only on NaN rows, the APIs agree on another NaN semantics: note, not violation.
-    if n_ok == 0 and all(b["cls"] == "nan" for b in bad) and len(bad) == len(runs) and len(nan_only_shapes) == 1:
+    if n_ok == 0 and all(b["cls"] == "nan" for b in bad) and len({id(b["got"]) for b in bad}) == len(runs) and len(nan_only_shapes) == 1:
         out["notes"]["nan_semantics_drift"] = out["notes"].get("nan_semantics_drift", 0) + 1
         return
     for b in bad:
@@ -345,7 +366,7 @@ def _job_engine(job: Dict[str, Any]) -> Dict[str, Any]:
     files: List[List[Dict[str, int]]] = job["files"]
     filters: List[List[Dict[str, Any]]] = job["filters"]
     sel: Dict[str, List[int]] = job["sel"]            # "fi,ei" -> reference row indices of file fi for filter ei
-    d1: Dict[str, List[int]] = job["d1"]              # rows the as-is model predicts scan(noverify) loses
+    lost: Dict[str, List[int]] = job["lost"]          # rows the as-is model predicts scan(noverify) loses
     projs = job["projs"]
     r = rng(job["seed"], "c12-engine", types["a"], types["b"])
     t = _Table(job["scratch"], types, files)
@@ -358,8 +379,8 @@ def _job_engine(job: Dict[str, Any]) -> Dict[str, Any]:
             _judge_filter(t, exprs, fd, expected, runs, out,
                           {"mode": "engine", "types": types, "files": files})
             # model drift: the as-is transcription predicts a NaN loss on scan(noverify) that did not show
-            predicted = any(d1.get(f"{fi},{ei}") for fi in range(len(files)))
-            seen = any(s.startswith("nan-row-lost:scan:noverify") for s, _, _ in out["violations"][before:])
+            predicted = any(lost.get(f"{fi},{ei}") for fi in range(len(files)))
+            seen = any(s.split(":")[0] in ("nan-row-lost", "zero-row-lost") and ":scan:noverify:" in s for s, _, _ in out["violations"][before:])
             if predicted != seen:
                 out["drift"] += 1
             for fi in range(len(files)):
@@ -598,9 +619,13 @@ _JOBS = {"engine": _job_engine, "layouts": _job_layouts, "malformed": _job_malfo
 
 
 def _run_job(job: Dict[str, Any]) -> Dict[str, Any]:
+    import time
+
+    t0 = time.time()
     try:
         res = _JOBS[job["kind"]](job)
         res["job"] = {"kind": job["kind"], "types": job.get("types")}
+        res["wall_s"] = time.time() - t0
         return res
     except MachineryError as e:
         return {"machinery": str(e)}
@@ -712,24 +737,25 @@ def _plan_engine(ctx: Ctx, quick: bool, single: List[Dict[str, Any]], projs: Lis
             sens = [k for k in ok_files if k not in core and len(files[k]) == 2 and
                     any(len({row[c] for row in files[k]} - {NULL, NAN}) == 1 and {row[c] for row in files[k]} & {NULL, NAN} for c in ("a", "b"))]
             rest = [k for k in ok_files if k not in core and k not in sens]
-            chosen_f = core + r.sample(sens, min(5, len(sens))) + r.sample(rest, min(3, len(rest)))
+            chosen_f = core + r.sample(sens, min(4, len(sens))) + r.sample(rest, min(3, len(rest)))
             special = [k for k in ok_filts if _expr_special(filts[k]) and filts[k]]
             plain = [k for k in ok_filts if k not in special and filts[k]]
-            chosen_e = [_ekey([])] + r.sample(special, min(34, len(special))) + r.sample(plain, min(7, len(plain)))
+            chosen_e = [_ekey([])] + r.sample(special, min(21, len(special))) + r.sample(plain, min(4, len(plain)))
         else:
             chosen_f, chosen_e = ok_files, ok_filts
         flist = [files[k] for k in chosen_f]
         elist = [filts[k] for k in chosen_e]
-        sel, d1 = {}, {}
+        sel, lost = {}, {}
+        fckey = "".join(c for c in ("a", "b") if types[c] in FLOAT_TYPES) or "none"
         for fi, fk in enumerate(chosen_f):
             for ei, ek in enumerate(chosen_e):
                 c = table[(fk, ek)]
                 rows = [rr for _, rr in c["sel"]]
                 if rows:
                     sel[f"{fi},{ei}"] = rows
-                if c["d1"]:
-                    d1[f"{fi},{ei}"] = [rr for _, rr in c["d1"]]
-        jobs.append({"kind": "engine", "types": types, "files": flist, "filters": elist, "sel": sel, "d1": d1, "projs": projs,
+                if c["lost"][fckey]:
+                    lost[f"{fi},{ei}"] = [rr for _, rr in c["lost"][fckey]]
+        jobs.append({"kind": "engine", "types": types, "files": flist, "filters": elist, "sel": sel, "lost": lost, "projs": projs,
                      "seed": ctx.seed, "scratch": scratch, "full": False})
     return jobs
 
@@ -749,8 +775,8 @@ def _plan_layouts(ctx: Ctx, quick: bool, multi: List[Dict[str, Any]], projs: Lis
             empty = [k for k in ok if json.loads(k) == []]
             three = [k for k in ok if len(json.loads(k)) == 3]
             two = [k for k in ok if len(json.loads(k)) == 2]
-            chosen = empty + r.sample(three, min(3, len(three))) + r.sample(two, min(2, len(two)))
-            nf = 6
+            chosen = empty + r.sample(three, min(2, len(three))) + r.sample(two, min(1, len(two)))
+            nf = 4
         else:
             chosen = ok if pi < 3 else [k for k in ok if json.loads(k) == []] + r.sample(ok, min(30, len(ok)))
             nf = 10 ** 6
@@ -783,12 +809,13 @@ def _plan_malformed(ctx: Ctx, quick: bool, pcases: List[Dict[str, Any]], scratch
                 reps: Dict[str, Dict[str, Any]] = {}
                 for pc in sorted(cs, key=lambda x: digest((x["cond"], x["condB"], ctx.seed))):
                     ref = "M" if pc["refMalformed"] else "/".join(e["op"] for e in pc["refExprs"])
-                    cls = (pc["cond"]["k"], pc["cond"]["opIsStr"], ref, pc["stage"], pc["cond"]["vk"], len(pc["cond"]["xs"]), json.dumps(pc["condB"], sort_keys=True))
+                    cls = (pc["cond"]["k"], pc["cond"]["opIsStr"], ref, pc["stage"], pc["cond"]["vk"], len(pc["cond"]["xs"]),
+                           json.dumps(pc["condB"], sort_keys=True), pc["cond"]["xs"] if pc["grp"] == "two" else None)
                     reps.setdefault(json.dumps(cls), pc)
                 cs = list(reps.values())
             layouts.append((json.loads(lk), cs))
         # split over a few jobs
-        variants = VARIANTS if not quick else [VARIANTS[0], VARIANTS[1], VARIANTS[4], VARIANTS[6]]
+        variants = VARIANTS if not quick else [VARIANTS[0], VARIANTS[4], VARIANTS[6]]
         for lay in layouts:
             jobs.append({"kind": "malformed", "types": types, "layouts": [lay], "variants": variants, "seed": ctx.seed, "scratch": scratch})
     return jobs
@@ -798,43 +825,47 @@ def _plan_malformed(ctx: Ctx, quick: bool, pcases: List[Dict[str, Any]], scratch
 # entry points
 # ------------------------------------------------------------------------------------------------
 
-def _run_tlc(ctx: Ctx, quick: bool, out: str) -> None:
+def _consts(sp: bool, vf: bool, mr: int, fp: bool) -> Dict[str, Any]:
+    return {"StatsPushdown": sp, "ValidateFirst": vf, "MaxRows": mr, "FullProj": fp}
+
+
+def _tlc_asis(ctx: Ctx, quick: bool, out: str) -> None:
+    """The model of the code as it is: all theorems, deviations from C12 confined to the characterised
+    defects; exports the case table."""
     max_rows = 2 if quick else 3
-
-    def consts(sp: bool, vf: bool, mr: int, fp: bool) -> Dict[str, Any]:
-        return {"StatsPushdown": sp, "ValidateFirst": vf, "MaxRows": mr, "FullProj": fp}
-
-    def asis() -> Any:
-        cfg = tlc.make_cfg(spec="Spec", constants=consts(True, False, max_rows, not quick), invariants=INVS_ASIS, postcondition="Export")
-        return tlc.run_tlc("MC_FilterSel", cfg, env={"VERIF_OUT": out}, timeout_s=1500, workers=6,
-                           label=f"MC_FilterSel code-as-is (StatsPushdown, ~ValidateFirst) MaxRows={max_rows}")
-
-    def repaired() -> Any:
-        cfg = tlc.make_cfg(spec="Spec", constants=consts(False, True, max_rows, not quick), invariants=INVS_REPAIRED)
-        return tlc.run_tlc("MC_FilterSel", cfg, timeout_s=1500, workers=6, label=f"MC_FilterSel repaired model MaxRows={max_rows}")
-
-    def must_fail() -> List[Tuple[str, Any]]:
-        res = []
-        for name, sp, vf in (("both defects", True, False), ("only D2 (late validation)", False, False), ("only D1 (statistics pushdown)", True, True)):
-            cfg = tlc.make_cfg(spec="Spec", constants=consts(sp, vf, 2, False), invariants=["ApiConforms"])
-            res.append((name, tlc.run_tlc("MC_FilterSel", cfg, timeout_s=600, workers=2, label=f"MC_FilterSel {name} (must fail)")))
-        return res
-
-    with concurrent.futures.ThreadPoolExecutor(max_workers=3) as ex:
-        fa, fr, ff = ex.submit(asis), ex.submit(repaired), ex.submit(must_fail)
-        ra, rr, rf = fa.result(), fr.result(), ff.result()
+    cfg = tlc.make_cfg(spec="Spec", constants=_consts(True, False, max_rows, not quick), invariants=INVS_ASIS, postcondition="Export")
+    ra = tlc.run_tlc("MC_FilterSel", cfg, env={"VERIF_OUT": out}, timeout_s=1500, workers=6 if quick else 8,
+                     label=f"MC_FilterSel code-as-is (StatsPushdown, ~ValidateFirst) MaxRows={max_rows}")
     ctx.add_tlc(ra)
-    ctx.add_tlc(rr)
     if not ra.ok:
         ctx.violation("model:" + ",".join(ra.violated or ["error"]),
                       f"TLC: {ra.violated} violated in the model of the code as it is (FilterSel.tla transcriptions)", ra.error_trace[:4000])
         raise MachineryError("the model of the code as it is no longer satisfies its theorems; case table not usable")
+
+
+def _tlc_companions(quick: bool) -> Dict[str, Any]:
+    """(b) the repaired model satisfies C12 outright; (c) ApiConforms must FAIL with either defect modelled.
+    Runs in a background thread while the binding executes."""
+    max_rows = 2 if quick else 3
+    cfg = tlc.make_cfg(spec="Spec", constants=_consts(False, True, max_rows, not quick), invariants=INVS_REPAIRED)
+    rr = tlc.run_tlc("MC_FilterSel", cfg, timeout_s=1500, workers=3 if quick else 8, label=f"MC_FilterSel repaired model MaxRows={max_rows}")
+    fails = []
+    for name, sp, vf in (("both defects", True, False), ("only D2 (late validation)", False, False), ("only D1 (statistics pushdown)", True, True)):
+        cfg = tlc.make_cfg(spec="Spec", constants=_consts(sp, vf, 2, False), invariants=["ApiConforms"])
+        fails.append((name, tlc.run_tlc("MC_FilterSel", cfg, timeout_s=600, workers=2, label=f"MC_FilterSel {name} (must fail)")))
+    return {"repaired": rr, "fails": fails}
+
+
+def _check_companions(ctx: Ctx, comp: Dict[str, Any]) -> None:
+    rr = comp["repaired"]
+    ctx.add_tlc(rr)
     if not rr.ok:
         raise MachineryError(f"the repaired model does not satisfy C12: {rr.violated}\n{rr.error_trace[:2000]}")
-    for name, res in rf:
+    for name, res in comp["fails"]:
         if "ApiConforms" not in res.violated:
             raise MachineryError(f"anti-vacuity: ApiConforms should fail with {name} modelled, but TLC reports {res.violated or 'no violation'}")
-    ctx.cov["anti_vacuity"] = "ApiConforms fails in TLC with both defects, with only D1 and with only D2 modelled; holds on the repaired model"
+    ctx.cov["anti_vacuity"] = ("ApiConforms fails in TLC with both defects, with only D1 and with only D2 modelled; "
+                               "holds on the repaired model (StatsPushdown=FALSE, ValidateFirst=TRUE)")
 
 
 def _collect(ctx: Ctx, res: Dict[str, Any]) -> None:
@@ -854,10 +885,16 @@ def _collect(ctx: Ctx, res: Dict[str, Any]) -> None:
 
 
 def run(ctx: Ctx) -> None:
+    import time
+
     quick = ctx.tier == "quick"
     scratch = scratch_dir("c12")
     out = os.path.join(scratch, "cases.ndjson")
-    _run_tlc(ctx, quick, out)
+    t0 = time.time()
+    _tlc_asis(ctx, quick, out)
+    t_tlc = time.time() - t0
+    bg = concurrent.futures.ThreadPoolExecutor(max_workers=1)
+    companions = bg.submit(_tlc_companions, quick)
 
     recs = [json.loads(line) for line in open(out)]
     meta = recs[0]
@@ -869,7 +906,7 @@ def run(ctx: Ctx) -> None:
     projs: List[Optional[List[str]]] = [None if p == ["*"] else p for p in sorted(meta["projs"])]
     ctx.cov["case_table"] = {"single_file_cases": len(single), "multi_file_cases": len(multi), "condition_shape_cases": len(pcases),
                              "projections": meta["projs"], "tlc_states_S": meta["nS"], "tlc_states_P": meta["nP"]}
-    ctx.cov["model_predicts_nan_loss_cases"] = sum(1 for c in single + multi if c["d1"])
+    ctx.cov["model_predicts_row_loss_cases"] = {k: sum(1 for c in single + multi if c["lost"][k]) for k in ("none", "a", "b", "ab")}
 
     pairs = QUICK_PAIRS if quick else QUICK_PAIRS + EXTRA_PAIRS
     jobs: List[Dict[str, Any]] = []
@@ -886,6 +923,14 @@ def run(ctx: Ctx) -> None:
         futs = [pool.submit(_run_job, j) for j in jobs]
         n_parser, parser_drift = _parser_differential(ctx, pcases)     # meanwhile, in this process
         results = [f.result() for f in futs]
+    t_bind = time.time() - t0 - t_tlc
+    _check_companions(ctx, companions.result())
+    bg.shutdown()
+    ctx.cov["phase_wall_s"] = {"tlc_asis_export": round(t_tlc, 1), "binding": round(t_bind, 1), "total": round(time.time() - t0, 1),
+                               "worker_cpu_s_by_kind": {}}
+    for job, res in zip(jobs, results):
+        k = ctx.cov["phase_wall_s"]["worker_cpu_s_by_kind"]
+        k[job["kind"]] = round(k.get(job["kind"], 0) + res.get("wall_s", 0), 1)
     ctx.count_traces(n_parser)
     ctx.cov["parser_conditions_checked"] = n_parser
     ctx.cov["model_drift_notes"] = ctx.cov.get("model_drift_notes", 0) + parser_drift
@@ -918,7 +963,7 @@ def run(ctx: Ctx) -> None:
                "NaN rows: the reference is IEEE (NaN satisfies only != and not_in and is_not_null); a deviation confined to NaN rows on which ALL read "
                "programs agree is recorded as nan_semantics_drift, any disagreement between read programs is a violation",
                "filter value containers are lists/tuples; one-shot iterators, str as value set, NaN and cross-kind literals are extension observations only",
-               "quick: per type pair a table of ~10 files (the 12-row file, the empty file, statistics-sensitive and sampled files) x ~40 filters; "
+               "quick: per type pair a table of ~9 files (the 12-row file, the empty file, statistics-sensitive and sampled files) x 26 filters; "
                "thorough: every exported (file<=2 rows.. as exported, filter) case per type pair")
 
 
